@@ -61,8 +61,15 @@ def run_check(pid: str, tier: str, repo=None) -> int:
     mod = importlib.import_module(f'pkstatic.rules.{pid.lower()}')
     mod.run(chk, ctx)
     if tier == 'thorough':
-        from .selftest import run_for_check
-        run_for_check(chk, pid)
+        from .report import load_known
+        known, _ = load_known()
+        if any(not o.ok and (pid, o.rule, o.construct) not in known for o in chk.obs):
+            # the rules already report a violation on this tree: the self-test (whose must-stay-silent half is built
+            # from copies of this very tree) would only restate it as a checker failure and hide the finding
+            chk.note('self-test skipped: the rules report a violation on the analysed tree')
+        else:
+            from .selftest import run_for_check
+            run_for_check(chk, pid)
     return chk.finish()
 
 
